@@ -216,7 +216,11 @@ CNext ==
 
 CSpec == CInit /\ [][CNext]_cvars
 
-Bounded == (\A k \in Nodes : own[k] <= MaxOwn) /\ mown <= MaxM
+Bounded == (\A k \in Nodes : own[k] <= MaxOwn) /\ mown <= MaxM /\ gcs <= 2
+
+(* constants of the bounded configuration MC_CApi.cfg: node 1 is a leaf,
+   2 = (1, terminal), 3 = (1, 2) shares node 1 with 2, 4 = (3, 3) *)
+MCKids == << <<0, 0>>, <<1, 0>>, <<1, 2>>, <<3, 3>> >>
 
 ----------------------------------------------------------------------------
 (* Invariants *)
@@ -250,25 +254,34 @@ EmptyAfterGc == (last.call = "gc" /\ SumOwn = 0) => store = {}
    slot <<k, j>> (j-th reference to node k) holds edge <<k, 0>> denoting
    Den(k). *)
 Den(k) == {k}
-HsBar == [s \in {<<k, j>> : k \in Nodes, j \in 1 .. MaxOwn + 1} \cap
-                {s \in Nodes \X (1 .. MaxOwn + 1) : s[2] <= own[s[1]]}
+HsBar == [s \in {x \in Nodes \X (1 .. MaxOwn + 2) : x[2] <= own[x[1]]}
            |-> [id |-> s[1], tag |-> 0, v |-> Den(s[1])]]
 
 M == INSTANCE Manager WITH kind <- "bdd", n <- 0, l2v <- <<>>, hs <- HsBar,
                            gcN <- gcs, roN <- 0
 
+Without(t, s) == [x \in DOMAIN t \ {s} |-> t[x]]
+(* make_node = NewHandle for the result, then Drop of the two consumed slots *)
+MakeNodeAbs(k) ==
+  LET hi == Kids[k][1]
+      lo == Kids[k][2]
+      t1 == M!Put(<<k, own[k] + 1>>, <<k, 0>>, Den(k))
+      t2 == Without(t1, <<hi, own[hi]>>)
+      t3 == Without(t2, <<lo, IF hi = lo THEN own[lo] - 1 ELSE own[lo]>>)
+  IN  /\ hi # 0 /\ lo # 0
+      /\ <<k, own[k] + 1>> \notin M!Live
+      /\ HsBar' = t3
+
 CallIs(c) == last'.call = c /\ ~last'.invOut
 Refines ==
-  [][ /\ (CallIs("op") \/ CallIs("make_node")) =>
-           \E k \in Nodes :
-              /\ M!NewHandle(<<k, own[k] + 1>>, <<k, 0>>, Den(k), Den(k), TRUE)
-                 \/ \* make_node on hi = lo = k's children etc.: new handle plus drops
-                    own'[k] = own[k] + 1
+  [][ /\ CallIs("op") =>
+           \E k \in Nodes : M!NewHandle(<<k, own[k] + 1>>, <<k, 0>>, Den(k), Den(k), TRUE)
+      /\ CallIs("make_node") => \E k \in Nodes : MakeNodeAbs(k)
       /\ CallIs("ref") => \E k \in Nodes : M!Clone(<<k, 1>>, <<k, own[k] + 1>>)
       /\ CallIs("unref") => \E k \in Nodes : M!Drop(<<k, own[k]>>)
       /\ CallIs("gc") => M!Gc
-      /\ last'.invOut => UNCHANGED <<own, mown, store, rc, mrc, gcs>>
+      /\ last'.invOut => HsBar' = HsBar /\ UNCHANGED <<own, mown, store, rc, mrc, gcs>>
       /\ last'.call \in {"manager_ref", "manager_unref", "containing_manager"} =>
-           UNCHANGED <<own, store, rc, gcs>>
+           HsBar' = HsBar /\ UNCHANGED <<store, rc, gcs>>
     ]_cvars
 =============================================================================
